@@ -90,7 +90,10 @@ func call(op string, f func() error) (res callResult) {
 // time bound for one decode call: linear in the input size with a generous constant, so that
 // only super-linear behaviour or a stall trips it even on a loaded machine.
 func timeBound(n int) time.Duration {
-	return 2*time.Second + time.Duration(n)*50*time.Microsecond
+	// measured: ~0.3 µs/byte for accepted and (since 69f067c) rejected documents; 5 µs/byte plus a
+	// constant leaves more than 10x head room for a loaded machine, while the quadratic error path
+	// that 69f067c removed (6 s for 140 kB) is far outside.
+	return 1500*time.Millisecond + time.Duration(n)*5*time.Microsecond
 }
 
 // ---- oracle tables (PROTOCOL section 7)
@@ -105,9 +108,9 @@ func newOra() *oraSet { return &oraSet{map[string]string{}, map[string]string{},
 
 func (o *oraSet) addNum(text string) {
 	if v, err := strconv.ParseFloat(text, 64); err == nil {
-		f32 := "range"
-		if math.IsNaN(v) || !(v > math.MaxFloat32 || v < -math.MaxFloat32) {
-			f32 = fmt.Sprintf("%08x", math.Float32bits(float32(v)))
+		f32 := fmt.Sprintf("%08x", math.Float32bits(float32(v)))
+		if math.IsInf(float64(float32(v)), 0) && !math.IsInf(v, 0) {
+			f32 = "range"
 		}
 		o.f[text] = fmt.Sprintf("(f %s %016x %s)", vh.Hex([]byte(text)), math.Float64bits(v), f32)
 	}
@@ -412,6 +415,9 @@ func (im *impl) execDec(h *vh.H, op string, nodes []*node) string {
 	m := ts.newMessage(md)
 	res := call(op, func() error { return c.JSONToProto(doc, m) })
 	meta := metaOf(nodes)
+	if os.Getenv("CODEC_DEBUG") != "" {
+		fmt.Fprintf(os.Stderr, "TIME %v len=%d err=%v\n", res.dur, len(doc), res.err != nil)
+	}
 	if res.panicked {
 		h.Fail("c06-panic:"+res.site, op, res.pval)
 		return "panic"
@@ -464,6 +470,7 @@ func (im *impl) exactOracle(h *vh.H, op string, ts *typeSet, md protoreflect.Mes
 		h.Count("c03.skip.reencode-unparseable")
 		return
 	}
+	postEncoded(root, got, mode)
 	if d := sameDoc(want, got, "$"); d != "" {
 		h.Fail("c03-stored-inexact:"+kindAt(root, d), op, fmt.Sprintf("%s; document %.300s; re-encoded %.300s", d, doc, out))
 		return
@@ -533,7 +540,10 @@ func (im *impl) metaOracle(h *vh.H, op string, ts *typeSet, md protoreflect.Mess
 			if r0.panicked || r0.err != nil {
 				return // the canonical spelling itself is not decodable: reported by C01
 			}
-			if !proto.Equal(m0.Interface(), got.Interface()) {
+			if d := diffMsg(ts, root, m0, got); d != nil {
+				if os.Getenv("CODEC_DEBUG") != "" {
+					fmt.Fprintf(os.Stderr, "DIFF %s %s %s\n", d.kind, d.path, d.what)
+				}
 				h.Fail("c03-spelling-differs:"+label, op, fmt.Sprintf("canonical %.300s gives %.300s; variation %.300s gives %.300s", base, dumpMsgOut(ts, m0), doc, dumpMsgOut(ts, got)))
 				return
 			}
@@ -639,7 +649,7 @@ func (im *impl) queryOracle(h *vh.H, op string, ts *typeSet, md protoreflect.Mes
 		h.Fail("c03-query-rejected:"+kind, op, fmt.Sprintf("%v; equivalent document %.300s is accepted", gotErr, doc))
 		return
 	}
-	if !proto.Equal(m0.Interface(), got.Interface()) {
+	if d := diffMsg(ts, ts.rootOf(md), m0, got); d != nil {
 		h.Fail("c03-query-differs:"+kind, op, fmt.Sprintf("document %.300s gives %.300s, query gives %.300s", doc, dumpMsgOut(ts, m0), dumpMsgOut(ts, got)))
 		return
 	}
